@@ -45,6 +45,11 @@ func (c RawConfiguration) QuorumCall(ctx context.Context, d QuorumCallData) (res
 		replies = make(map[uint32]protoreflect.ProtoMessage)
 	)
 
+	if expectedReplies == 0 {
+		// no node was targeted; there is nothing to wait for
+		return resp, QuorumCallError{cause: Incomplete, errors: errs, replies: len(replies)}
+	}
+
 	for {
 		select {
 		case r := <-replyChan:
